@@ -89,3 +89,21 @@ package grpc
 //@   assert at call Sprintf#2 s.opts.unknownStreamDesc == nil && knownService && !haskey(srv.streams, method)
 //@   assert at call New#1 arg0 == codes.Unimplemented
 
+// ---- C18 / C19: retry decision --------------------------------------------------------
+//
+// shouldRetry: which failures remove a throttling token, and when a (non
+// transparent) retry is granted. ncalls("throttle") counts the throttle() calls
+// made so far on the path: a token is removed exactly once on every path that
+// reaches the attempts check or the backoff timer, and never before the
+// retryable-code test (except for malformed / multiple pushback values).
+
+//@ func (*csAttempt).shouldRetry
+//@   prop C18 C19
+//@   assert at call throttle#1 ncalls("throttle") == 0 && len(sps) == 1 && (e != nil || pushback < 0)
+//@   assert at call throttle#2 ncalls("throttle") == 0 && len(sps) > 1
+//@   assert at call throttle#3 ncalls("throttle") == 0 && rp != nil && rp.RetryableStatusCodes[code] && implies(hasPushback, pushback >= 0)
+//@   assert at call Errorf#1 ncalls("throttle") == 1 && cs.numRetries+1 >= rp.MaxAttempts
+//@   assert at call NewTimer#1 ncalls("throttle") == 1
+//@   assert at call NewTimer#1 rp != nil && cs.numRetries+1 < rp.MaxAttempts
+//@   assert at call NewTimer#1 implies(hasPushback && Z(pushback) <= 9223372036854, Z(arg0) == 1000000 * Z(pushback) && cs.numRetriesSincePushback == 0)
+
